@@ -718,6 +718,9 @@ impl IsoTime {
         // 11. Let days be floor(hour / 24).
         // 12. Set hour to hour modulo 24.
         let (days, hour) = div_mod(hour, 24);
+        // NOTE: a day count beyond 32 bits saturates instead of wrapping around; every
+        // caller rejects day counts of that size as out of range.
+        let days = days.clamp(i64::from(i32::MIN), i64::from(i32::MAX));
 
         let time = Self::new_unchecked(
             hour as u8,
